@@ -18,6 +18,18 @@ CLAIMS = {
  "C06": dict(text="Theorems: marshal c buf v = buf ++ marshal c [] v for every codec, buffer and value (incl. values that encode to nothing), prefix bytes returned unchanged. The model's Marshal is a function of (codec, value) only; by-value vs by-pointer, capacity, reuse and repetition are runtime facts decided by the correspondence: real Marshal output for prefixes x spare capacities x conventions x repeated calls must be exactly the model's bytes (maps: after reordering entries to the wire order).",
              note=TB + " By-value calls with pointer-shaped single-field structs are excluded (known finding D13).",
              tech="Coq theorems on the Marshal model + differential check over buffer prefixes/capacities/conventions"),
+ "C15": dict(text="Theorems for ALL call trees (any depth/width, empty containers, every adjacency): the JSONOutput state machine (prefix/end/punctuate incl. the trailing-comma trim, stack, inField) produces exactly the structural reference rendering, from a fresh state and from any state of an enclosing document; appendString is invertible on every byte string (256-value sweep lifted by induction) and never emits a raw control byte or bare quote; Reset returns to the initial state. Correspondence: Done() bytes of the real outputter on generated call trees and Reset histories vs the model; natively encoding/json must parse the output to the call tree. Number/time tokens are opaque (strconv/time are not modelled).",
+             note=TB + " strconv.AppendInt/AppendFloat/AppendBool and time.AppendFormat output is taken from the implementation as opaque tokens; that the rendered text is grammatical JSON is checked with encoding/json on every generated case, not proved.",
+             tech="Coq proof by induction on call trees with a state-machine invariant; finite sweep + induction for escaping; differential check + encoding/json parse"),
+ "C14": dict(text="Theorems: a struct's descriptor has exactly one element per encoded field in declaration order with its index and name and the struct's type name; the field type / logical type matches the codec's wire encoding for every codec constructor; ExplicitPresence is set for exactly pointer and null codecs; the full statement is refuted for recursive types (C14_recursive_refuted: Descriptor() does not terminate - known finding D21). Correspondence (decisive): the Descriptor() tree of every generated non-recursive type equals the model's descriptor_of(codec_for(type)).",
+             note=TB + " That codec_for picks the documented codec for each Go type (json names, tag options, named types) is validated by the correspondence, not yet proved against an independent type-level specification.",
+             tech="Coq case analysis / induction over the codec tree + differential check of Descriptor() trees"),
+ "C13": dict(text="PARTIAL. The model transcribes Descriptor.read (struct / map-entry / slice / JSON walkers, missing-member defaults) into Coq and is compared call-for-call with the implementation's Outputter calls on Marshal output (decisive); theorems so far: the walk of every scalar leaf's encoding emits exactly that scalar and consumes its length. On the implementation: the JSON text must parse (encoding/json) to the JSON image of the typed decode, and the walk must be identical for descriptors restored through plenc and encoding/json. Known findings (flat narrow negatives, proto-compatible time and repeated forms, recursive types) are listed and still reported if they change shape.",
+             note=TB + " encoding/json and the harness's JSON image of a Go value are trusted for the native comparison; composite-walk theorems are not yet proved.",
+             tech="Coq model of the descriptor walker + differential check on Outputter call sequences; scalar-leaf theorems"),
+ "C16": dict(text="Theorems for all JSON-model trees: sizeJSONValue/JSONMapCodec.size/JSONArrayCodec.size equal the appended length; a JSON object/array in an unknown field is skipped exactly (Skip returns its encoded length). Round trip, struct-field and skipped positions are decided by the correspondence (model jread_* vs implementation), and the Descriptor walk is checked natively to render JSON equal to the value. PARTIAL: the round-trip theorem for the mutually recursive reader is not yet proved.",
+             note=TB,
+             tech="Coq proofs by nested induction on JSON trees + differential check of the JSON codecs"),
 }
 
 checks = []
